@@ -373,6 +373,21 @@ def check(run, model, tier):
                     if isinstance(it_, ast.Name):       # a local bound to (a copy / the set of) cls._attributes
                         ds2 = [d_ for d_ in local_defs(mi.node).get(it_.id, []) if isinstance(d_, ast.AST)]
                         return bool(ds2) and all('_attributes' in norm(d_) for d_ in ds2)
+                    if isinstance(it_, ast.Call):
+                        # a helper of the package that hands back the declared names: each non-empty return of it derives from _attributes
+                        hn_ = it_.func.attr if isinstance(it_.func, ast.Attribute) else (it_.func.id if isinstance(it_.func, ast.Name) else None)
+                        hs_ = [f_ for f_ in model.all_funcs() if f_.name == hn_ and f_.module is mi.module]
+                        if len(hs_) == 1:
+                            hd_ = local_defs(hs_[0].node)
+                            rets_ = [r_.value for r_ in walk_shallow(hs_[0].node) if isinstance(r_, ast.Return) and r_.value is not None
+                                     and not (isinstance(r_.value, (ast.List, ast.Tuple, ast.Set)) and not r_.value.elts)]
+
+                            def derives(e_, depth=4):
+                                if '_attributes' in norm(e_):
+                                    return True
+                                return depth > 0 and any(isinstance(x_, ast.Name) and any(isinstance(d_, ast.AST) and derives(d_, depth - 1) for d_ in hd_.get(x_.id, []))
+                                                         for x_ in ast.walk(e_))
+                            return bool(rets_) and all(derives(r_) for r_ in rets_)
                     return False
                 par_ok = any(isinstance(p, ast.For) and over_attributes(p.iter) and any(x is n for x in ast.walk(p))
                              for p in walk_shallow(mi.node))
